@@ -30,6 +30,9 @@ STRENGTHENED = {
     'C20-5': 'robots.txt redirected to files named robots.txt below the root of another crawled origin',
     'C16-6': 'the fake proxy pool got credentials of its own (add_auth_header) and a host filter (some hops reached directly); predicate "Proxy-Authorization only on proxied connections"',
     'C07-5': 'folded continuation lines that hold white space only, inside the header block',
+    'C07-4': 'size-based rollover falling between the request record and the response record of one exchange; the recorder observer no longer depends on the signature of write_record',
+    'C11-6': 'links made of thousands of repetitions of a short scheme-like prefix (feed:, view-source:, ../, //) in the join pairs',
+    'C03-5': 'a site with 1003 input lines (two committed input batches), kills between the batches; the start-up of the model became non-atomic (LAddBatch, C03_start_urls_never_lost)',
 }
 
 
